@@ -568,7 +568,7 @@ package netty
 // The background sender. One activation owns the sender token (running == 1) from its start
 // until it stores idle; it drains the queue in FIFO batches.
 //@ spec func bufInv(c *channel) bool = c.writeBuffers != nil && c.recycleBuffers != nil && cap(c.writeBuffers) == cap(c.recycleBuffers) && cap(c.writeBuffers) >= 1 && arrof(c.writeBuffers) != arrof(c.recycleBuffers) && cap(c.writeBuffers) == cap(c.writeQueue)/2 + 1
-//@ property C01 C02 C05 C06 C07 C10 C18
+//@ property C01 C02 C05 C06 C07 C09 C10 C12 C18
 //@ func (*channel).writeOnce
 //@   requires asyncInv(c) && bufInv(c)
 //@   modifies all
@@ -594,6 +594,7 @@ package netty
 //@   ensures exit_when_empty_or_other_owner: implies(count("netty.channel.Close") == 0, (evres(last("store c.running") + 1, 0) == 0 && nemitted() == last("store c.running") + 2) || (evres(last("store c.running") + 1, 0) > 0 && evis(nemitted()-1, "cas c.running") && !evres(nemitted()-1, 0) && nemitted() == last("store c.running") + 3))
 //@   ensures only_close_tears_down@C05_C07: count("net.Conn.Close") == 0 && count("context.CancelFunc") == 0 && count("Pipeline.FireChannelInactive") == 0
 //@   ensures failure_releases_then_closes: implies(count("netty.channel.Close") == 1, evis(nemitted()-1, "netty.channel.Close") && evis(nemitted()-2, "store c.running") && evarg(nemitted()-2, 0) == 0 && evarg(nemitted()-1, 0) == c && evarg(nemitted()-1, 1) != nil)
+//@ cellfresh (*channel).writeOnce: after "pbytes.Put" argument 0
 //@ order (*channel).writeOnce: "BuffersWriter.Writev" dominates "pbytes.Put"
 //@ order (*channel).writeOnce: "Transport.Flush" dominates "store c.running"
 //@ order (*channel).writeOnce: "store c.running" dominates "cas c.running"
@@ -744,6 +745,7 @@ package netty
 //@   loop 0 invariant cfg: chinv(c) && implies(c.writeQueue != nil, cap(c.writeQueue) >= 1) && rwf(r)
 //@   loop 0 invariant progress: n == rpos(r) - old(rpos(r)) && n >= 0
 //@   loop 0 invariant each_chunk_written_once: implies(nemitted() > 0, evis(0, "pbytes.Get") && count("netty.channel.write1") <= 1 && implies(count("netty.channel.write1") == 1, evarg(last("netty.channel.write1"), 2) == false))
+//@   loop 0 invariant every_chunk_through_the_checked_entry@C11_C14: implies(nemitted() > 0, (count("netty.channel.write1") == 1) == (n > atheader(n)) && count("send c.writeQueue") == 0 && count("net.Conn.Write") == 0 && count("Transport.Flush") == 0)
 //@   loop 0 invariant single_write@C09: count("netty.channel.write1") == 0
 //@   loop 0 invariant chunk_is_what_was_read: implies(count("netty.channel.write1") == 1, at(last("netty.channel.write1"), len(evarg(last("netty.channel.write1"), 1)) >= 1 && seqeq(content(evarg(last("netty.channel.write1"), 1)), subseq(rdata(r), rpos(r) - len(evarg(last("netty.channel.write1"), 1)), len(evarg(last("netty.channel.write1"), 1)))) && rpos(r) - len(evarg(last("netty.channel.write1"), 1)) - old(rpos(r)) == n - len(evarg(last("netty.channel.write1"), 1))))
 //@   ensures last_chunk_is_what_was_read: implies(count("netty.channel.write1") == 1, at(last("netty.channel.write1"), len(evarg(last("netty.channel.write1"), 1)) >= 1 && seqeq(content(evarg(last("netty.channel.write1"), 1)), subseq(rdata(r), rpos(r) - len(evarg(last("netty.channel.write1"), 1)), len(evarg(last("netty.channel.write1"), 1))))))
